@@ -617,6 +617,7 @@ func (fc *FnCtx) dryRunLoop(h *ssa.BasicBlock, st *State, body map[*ssa.BasicBlo
 	// declarations are rolled back together with everything else.
 	vc.decls, vc.asserts, vc.obligs, vc.cands, vc.n = vc.decls[:snapDecls], vc.asserts[:snapAsserts], vc.obligs[:snapObligs], vc.cands[:snapCands], snapN
 	vc.adef = vc.adef[:snapAdef]
+	vc.aglobal = vc.aglobal[:snapAdef]
 	vc.names = snapNames
 	vc.colDecl = snapColDecl
 	vc.ufDecl = snapUF
@@ -754,6 +755,11 @@ func (fc *FnCtx) loopInvariants(li *loopInfo, phis []*ssa.Phi, entryBind map[*ss
 				add(fmt.Sprintf("%s<=%s", name, bound.desc), func(b map[*ssa.Phi]SV, s *State) Term {
 					return mkLe(b[p].one(), bound.term)
 				})
+				if bound.add != "" && bound.add != "0" {
+					add(fmt.Sprintf("%s+%s<=%s", name, bound.add, bound.desc), func(b map[*ssa.Phi]SV, s *State) Term {
+						return mkLe(mkAdd(b[p].one(), bound.add), bound.term)
+					})
+				}
 			}
 		}
 	}
@@ -763,6 +769,7 @@ func (fc *FnCtx) loopInvariants(li *loopInfo, phis []*ssa.Phi, entryBind map[*ss
 type phiBound struct {
 	desc string
 	term Term
+	add  Term // constant added to the phi in the comparison (phi + add < bound)
 }
 
 // phiBounds finds `phi < w` / `phi+1 < w` style comparisons in the loop whose
@@ -780,18 +787,18 @@ func (fc *FnCtx) phiBounds(li *loopInfo, p *ssa.Phi) []phiBound {
 		}
 		return false
 	}
-	derived := func(v ssa.Value) bool {
+	derived := func(v ssa.Value) (bool, Term) {
 		if v == p {
-			return true
+			return true, "0"
 		}
 		if b, ok := v.(*ssa.BinOp); ok && b.Op == token.ADD {
 			if b.X == p {
-				if _, isC := b.Y.(*ssa.Const); isC {
-					return true
+				if c, isC := b.Y.(*ssa.Const); isC {
+					return true, fc.constVal(c).one()
 				}
 			}
 		}
-		return false
+		return false, ""
 	}
 	for b := range li.body {
 		for _, in := range b.Instrs {
@@ -799,9 +806,9 @@ func (fc *FnCtx) phiBounds(li *loopInfo, p *ssa.Phi) []phiBound {
 			if !ok {
 				continue
 			}
-			if (cmp.Op == token.LSS || cmp.Op == token.LEQ) && derived(cmp.X) && outside(cmp.Y) {
+			if d, addc := derived(cmp.X); (cmp.Op == token.LSS || cmp.Op == token.LEQ) && d && outside(cmp.Y) {
 				if _, have := fc.vals[cmp.Y]; have || isConst(cmp.Y) {
-					out = append(out, phiBound{fc.valueSourceName(cmp.Y), fc.val(cmp.Y).one()})
+					out = append(out, phiBound{fc.valueSourceName(cmp.Y), fc.val(cmp.Y).one(), addc})
 				}
 			}
 		}
